@@ -37,10 +37,10 @@ var (
 )
 
 // fmt.Print* write to the real descriptor 1 inside package fmt; rewritten code goes here.
-func Print(a ...any) (int, error)                 { return fmt.Fprint(Stdout, a...) }
-func Println(a ...any) (int, error)               { return fmt.Fprintln(Stdout, a...) }
-func Printf(f string, a ...any) (int, error)      { return fmt.Fprintf(Stdout, f, a...) }
-func Fwriter(w io.Writer) io.Writer               { return w }
+func Print(a ...any) (int, error)            { return fmt.Fprint(Stdout, a...) }
+func Println(a ...any) (int, error)          { return fmt.Fprintln(Stdout, a...) }
+func Printf(f string, a ...any) (int, error) { return fmt.Fprintf(Stdout, f, a...) }
+func Fwriter(w io.Writer) io.Writer          { return w }
 
 // ---------------------------------------------------------------------------------------
 // environment, identity
@@ -132,16 +132,16 @@ func rnd() uint64 {
 	return cur.rnd
 }
 
-func RandInt() int         { return int(rnd() >> 1) }
-func RandIntn(n int) int   { return int(rnd() % uint64(n)) }
-func RandInt63() int64     { return int64(rnd() >> 1) }
+func RandInt() int             { return int(rnd() >> 1) }
+func RandIntn(n int) int       { return int(rnd() % uint64(n)) }
+func RandInt63() int64         { return int64(rnd() >> 1) }
 func RandInt63n(n int64) int64 { return int64(rnd() % uint64(n)) }
-func RandInt31() int32     { return int32(rnd() >> 33) }
+func RandInt31() int32         { return int32(rnd() >> 33) }
 func RandInt31n(n int32) int32 { return int32(rnd() % uint64(n)) }
-func RandUint32() uint32   { return uint32(rnd()) }
-func RandUint64() uint64   { return rnd() }
-func RandFloat64() float64 { return float64(rnd()>>11) / (1 << 53) }
-func RandSeed(int64)       {}
+func RandUint32() uint32       { return uint32(rnd()) }
+func RandUint64() uint64       { return rnd() }
+func RandFloat64() float64     { return float64(rnd()>>11) / (1 << 53) }
+func RandSeed(int64)           {}
 func RandPerm(n int) []int {
 	p := make([]int, n)
 	for i := range p {
